@@ -343,12 +343,22 @@ func renameRef(e gen.Expr, f func(string) string) {
 		}
 	case *gen.EGroup:
 		renameRef(x.X, f)
+	case *gen.ECall:
+		if x.Fn == "ident" && len(x.Args) == 1 {
+			renameRef(x.Args[0], f) // a name handed through a callback that returns it
+		}
 	case *gen.EBin:
 		// a name put together from two literals
 		l, lok := x.L.(*gen.EStr)
 		r, rok := x.R.(*gen.EStr)
 		if x.Op == "~" && lok && rok {
 			l.S, r.S = f(l.S+r.S), ""
+		} else if x.Op == "~" && rok {
+			if _, call := x.L.(*gen.ECall); call {
+				r.S = f(r.S) // a call that returns nothing in front of the name
+			}
+		} else if c, ok := x.R.(*gen.ECall); ok && x.Op == "~" && c.Fn == "ident" && len(c.Args) == 1 {
+			renameRef(c.Args[0], f) // ... and the name handed through a callback that returns it
 		}
 	case *gen.ETern:
 		renameRef(x.A, f)
